@@ -170,7 +170,7 @@ fn expr(e: &syn::Expr) -> Value {
             expr(&c.body),
             c.capture.is_some()
         ]),
-        Continue(_) => json!(["continue"]),
+        Continue(c) => json!(["continue", c.label.as_ref().map(|l| l.ident.to_string())]),
         Field(f) => {
             let name = match &f.member {
                 syn::Member::Named(i) => i.to_string(),
@@ -178,7 +178,13 @@ fn expr(e: &syn::Expr) -> Value {
             };
             json!(["field", expr(&f.base), name])
         }
-        ForLoop(f) => json!(["for", pat(&f.pat), expr(&f.expr), block(&f.body)]),
+        ForLoop(f) => json!([
+            "for",
+            pat(&f.pat),
+            expr(&f.expr),
+            block(&f.body),
+            f.label.as_ref().map(|l| l.name.ident.to_string())
+        ]),
         Group(g) => expr(&g.expr),
         If(i) => json!([
             "if",
@@ -192,7 +198,7 @@ fn expr(e: &syn::Expr) -> Value {
         Index(i) => json!(["index", expr(&i.expr), expr(&i.index)]),
         Let(l) => json!(["let", pat(&l.pat), expr(&l.expr)]),
         Lit(l) => lit(&l.lit),
-        Loop(l) => json!(["loop", block(&l.body)]),
+        Loop(l) => json!(["loop", block(&l.body), l.label.as_ref().map(|x| x.name.ident.to_string())]),
         Macro(m) => macro_node(&m.mac),
         Match(m) => json!([
             "match",
@@ -258,7 +264,12 @@ fn expr(e: &syn::Expr) -> Value {
             json!(["unary", op, expr(&u.expr)])
         }
         Unsafe(u) => json!(["unsafe", block(&u.block)]),
-        While(w) => json!(["while", expr(&w.cond), block(&w.body)]),
+        While(w) => json!([
+            "while",
+            expr(&w.cond),
+            block(&w.body),
+            w.label.as_ref().map(|x| x.name.ident.to_string())
+        ]),
         Const(c) => json!(["constblock", block(&c.block)]),
         other => json!(["unknown", ts(other)]),
     }
